@@ -321,8 +321,60 @@ def rejected_cases(rng: Rng, tier):
     yield "multiclass_precision_recall_curve", {"input": X, "target": it([7, 1]), "num_classes": 3}, ("odd-label",)
 
 
+def _bound_pairs():
+    """(k, m) such that the precision k/m can be asked for as the python float k/m WITHOUT an ill-defined outcome: the double
+    nearest to k/m is not above k/m (so, in exact arithmetic on the numbers actually passed, the point with precision k/m reaches
+    the bound), and the float32 quotient the implementation forms equals the float32 rounding of the bound (so a correct
+    single-precision implementation agrees).  Non-dyadic bounds only: the exact decimals 1/4, 1/2 … are in MINPS already."""
+    out = []
+    for m in (3, 5, 6, 7, 9, 10, 11, 12, 20):
+        for k in range(1, m):
+            b = k / m
+            if Fr(b) == Fr(k, m):
+                continue                      # dyadic
+            if Fr(b) > Fr(k, m):
+                continue                      # the double lies above k/m: k/m does not reach it
+            if float(torch.tensor(float(k)) / torch.tensor(float(m))) != float(torch.tensor(b, dtype=torch.float32)):
+                continue
+            out.append((k, m))
+    return out
+
+
+def bound_on_point(rng: Rng, tier):
+    """recall@precision with the bound EXACTLY on a curve point whose precision is not a dyadic rational (7 of the 10 best-scored
+    samples positive, min_precision=0.7): the point qualifies, and it is the one that decides the answer (every later point has a
+    lower precision, every earlier qualifying point a lower recall)."""
+    pairs = _bound_pairs()
+    reps = len(pairs) if tier == "thorough" else min(len(pairs), 14)
+    for (k, m) in (pairs if tier == "thorough" else rng.sample(pairs, reps)):
+        head = [1] * k + [0] * (m - k)
+        # the m-th best sample must be a positive (else the point at m shares its recall with the point at m-1, whose precision is higher)
+        body = head[:-1]
+        rng.shuffle(body)
+        top = body[: m - 1]
+        top = [v for v in top]
+        # make sure exactly k-1 positives precede the closing positive
+        top = ([1] * (k - 1) + [0] * (m - k))
+        rng.shuffle(top)
+        top.append(1)
+        tail_neg = rng.randint(m, 2 * m)            # enough negatives that no later point climbs back to k/m
+        extra_pos = rng.randint(1, 3)
+        ys = top + [0] * tail_neg + [1] * extra_pos
+        n = len(ys)
+        xs = [Fr(n - i, 256) for i in range(n)]    # distinct, exactly representable, descending
+        order = list(range(n))
+        rng.shuffle(order)
+        x = ft([xs[i] for i in order]); y = it([ys[i] for i in order])
+        yield "binary_recall_at_fixed_precision", {"input": x, "target": y, "min_precision": k / m}, ("bound-on-point", n)
+        # the same column as label 1 of a two-label problem (label 0: a dyadic control)
+        x2 = ft([v for i in order for v in (Fr(1, 2), xs[i])], shape=(n, 2))
+        y2 = it([v for i in order for v in (ys[i], ys[i])], shape=(n, 2))
+        yield "multilabel_recall_at_fixed_precision", {"input": x2, "target": y2, "num_labels": 2, "min_precision": k / m}, ("bound-on-point-ml", n)
+
+
 def all_cases(rng, tier):
     yield from rejected_cases(rng, tier)
+    yield from bound_on_point(rng, tier)
     yield from binary_exhaustive(rng, tier)
     yield from binary_random(rng, tier)
     yield from multi_cases(rng, tier)
